@@ -37,16 +37,25 @@ Definition obs_eqb (a b : obs) : bool :=
   && list_eqb N.eqb (o_written a) (o_written b)
   && option_eqb (fun x y => option_eqb ver_eqb (fst x) (fst y) && Nat.eqb (snd x) (snd y)) (o_sniff a) (o_sniff b).
 
+Definition script_pos_b (s : list rd) : bool :=
+  forallb (fun r => match r with RChunk O => false | _ => true end) s.
+
 Definition mon18 (k : case) (o : obs) : bool :=
   if k_sniff k then
     (* the adapter under test is the rewound stream the sniffer produced *)
     match o_sniff o with
     | Some (Some _, _) => mon_C18 [] (i_stream (k_inner k)) (k_ops k) (o_res o) (o_written o)
+                          && (negb (script_pos_b (i_rscript (k_inner k)))
+                              || mon_C18_eof [] (i_stream (k_inner k)) (k_ops k) (o_res o))
     | _ => true
     end
   else
     mon_C18 (match k_prefix k with Some p => p | None => [] end) (i_stream (k_inner k))
-            (k_ops k) (o_res o) (o_written o).
+            (k_ops k) (o_res o) (o_written o)
+    (* end of stream is never invented (inner reads of 0 bytes with room are excluded: AsyncRead contract) *)
+    && (negb (script_pos_b (i_rscript (k_inner k)))
+        || mon_C18_eof (match k_prefix k with Some p => p | None => [] end) (i_stream (k_inner k))
+                       (k_ops k) (o_res o)).
 
 Definition mon08 (k : case) (o : obs) : bool :=
   if k_sniff k then
